@@ -333,7 +333,24 @@ class C14(core.Property):
                                "extraOfS / tobsOf are proof-side mirrors of DriverStore.judgeStoreMode / judgeTxnMode without the text layer (parsing of the "
                                "transcript lines is executable glue, as obsOf is for the LSM family); (3) runs that are not Quiesced and schedules that "
                                "interleave the operations of one transaction are outside the transaction theorem (the harness runs one client per slot and "
-                               "drains the simulation); (4) that the implementation runs the model's segments (checked by comparison on every case).",
+                               "drains the simulation); (4) that the implementation runs the model's segments (checked by comparison on every case). "
+                               "LSM-backed transactions (gap 1), state after the final proof round: the machine layer is re-proved without the one-segment-get "
+                               "hypothesis (SM.LM.machFacts_run / txn_trace_satisfies_spec_side: for ANY store obeying the map laws, judgeTxn of the run's "
+                               "transcript is none provided a side invariant J of manager+frames is supplied with (J1) a read completing in its first segment and "
+                               "(J2) a suspended read that completes return fetchVal of the state at that segment, (J3) J is preserved by every segment under the "
+                               "run invariant, (J4) J holds initially). The LSM ingredients of such a J are proved: putSync_rb / applyWrites_rb (the reader "
+                               "invariant RB of a get suspended at a page read survives put_sync — insert, flush, compaction back to back — and a whole commit "
+                               "application; the cells it may still return grow exactly by the cells the commit wrote to its key) and sv_commit (for a "
+                               "SNAPSHOT_ISOLATION / SERIALIZABLE reader each such cell is as good as the current value: undoing the commit log to the snapshot "
+                               "gives the same result). NOT done: instantiating J for Store.lsm (obligations J1-J4, i.e. txn_trace_satisfies_spec_lsm itself) — "
+                               "J3 needs the case analysis of stepT per operation kind with 'an in-flight reader has another slot than a starting operation'. "
+                               "READ_COMMITTED readers over the LSM store are a genuine exception to 'result = fetchVal at completion': a get suspended across a "
+                               "commit of its key returns the OLD cell; the judge has no clause for READ_COMMITTED reads, so this is not a violation, but the "
+                               "LSM theorem will need NoRC or a weaker read_res for rc. Quiesced: if the schedule stops between the two segments of a successful "
+                               "commit, the commit frame has b but no e, judgeTxnMode drops it (completed operations only), the TObs has commit = none, the "
+                               "commit order lacks it while the final store has its writes, and judgeTxn answers txn/final/store-is-not-the-committed-writes "
+                               "(when the writes are visible in keys < nkeys) — so Quiesced cannot be dropped for the final-store clause; it could be weakened "
+                               "to 'no commit frame is at .fin' (reads, writes and begins may be cut anywhere), which machFacts_of_rinv uses only in commit_ev/done_e.",
     }
 
     def generate(self, rng: random.Random, i: int, tier: str) -> dict:
@@ -528,6 +545,11 @@ THEOREMS = [
     "HappyModel.C14.SM.txn_trace_satisfies_spec",
     "HappyModel.C14.SM.txn_trace_satisfies_spec_kv",
     "HappyModel.C14.SM.txn_trace_satisfies_spec_btree",
+    "HappyModel.C14.SM.LM.machFacts_run",
+    "HappyModel.C14.SM.LM.txn_trace_satisfies_spec_side",
+    "HappyModel.C14.SM.LM.putSync_rb",
+    "HappyModel.C14.SM.LM.applyWrites_rb",
+    "HappyModel.C14.SM.LM.sv_commit",
 ]
 C14.theorems = THEOREMS
 PROPERTY = C14()
